@@ -8,6 +8,7 @@
 (*           altered (at part2 and part3)                                   *)
 (*  r1len    its commitment truncated / extended                            *)
 (*  r1swap   s's and x's packages filed under each other's identifier       *)
+(*  r1graft  s's commitment carrying the proof of knowledge of x's package  *)
 (*  r1own / r1unknown / r1missing / r1surplus   structural faults           *)
 (*  r1late   honest at part2, one coefficient altered in the map at part3   *)
 (*  r2delta  round-two share off by d                                       *)
@@ -52,7 +53,7 @@ ChooseFault ==
                \/ \E k \in 1..sc.t, d \in Deltas : sc' = sc @@ [r |-> r, s |-> s, fault |-> [kind |-> f, what |-> "commit", k |-> k, d |-> d]]
          \/ /\ f = "r1len"
             /\ \E w \in {"trunc", "extend"} : sc' = sc @@ [r |-> r, s |-> s, fault |-> [kind |-> f, what |-> w, k |-> 0, d |-> 1]]
-         \/ /\ f \in {"r1swap", "r2route"}
+         \/ /\ f \in {"r1swap", "r2route", "r1graft"}
             /\ \E x \in IdSet \ {r, s} : sc' = sc @@ [r |-> r, s |-> s, fault |-> [kind |-> f, x |-> x]]
          \/ /\ f \in {"r1own", "r1unknown", "r1missing", "r1surplus", "r2own", "r2unknown", "r2missing", "r2surplus"}
             /\ sc' = sc @@ [r |-> r, s |-> s, fault |-> [kind |-> f]]
@@ -92,6 +93,7 @@ Forge ==
             /\ EncodableR1(TamperedR1(env[<<"r1p", sc.s>>], "commit", F.k, F.d))
             /\ ActTamperR1(<<"r1x", sc.s>>, <<"r1p", sc.s>>, "commit", F.k, F.d)
        [] F.kind = "r2delta" -> ActTamperR2(<<"r2x", sc.s>>, <<R2N[sc.s], sc.r>>, F.d)
+       [] F.kind = "r1graft" -> ActGraftProof(<<"r1x", sc.s>>, <<"r1p", sc.s>>, <<"r1p", F.x>>)
        [] OTHER -> UNCHANGED fvars
 
 Honest1 == [l \in IdSet \ {sc.r} |-> <<"r1p", l>>]
@@ -100,7 +102,7 @@ Without(f, k) == [x \in DOMAIN f \ {k} |-> f[x]]
 
 \* the round-one map the receiver is given at part2 / at part3
 R1At(stage) ==
-  CASE F.kind \in {"r1field", "r1len"} -> [Honest1 EXCEPT ![sc.s] = <<"r1x", sc.s>>]
+  CASE F.kind \in {"r1field", "r1len", "r1graft"} -> [Honest1 EXCEPT ![sc.s] = <<"r1x", sc.s>>]
     [] F.kind = "r1swap"    -> [Honest1 EXCEPT ![sc.s] = <<"r1p", F.x>>, ![F.x] = <<"r1p", sc.s>>]
     [] F.kind = "r1own"     -> (sc.r :> <<"r1p", sc.s>>) @@ Without(Honest1, sc.s)
     [] F.kind = "r1unknown" -> (Unknown :> <<"r1p", sc.s>>) @@ Without(Honest1, sc.s)
